@@ -39,19 +39,19 @@ DBG_TRUST = ['N12 at-use hooks: "every listed site is a breakpoint instruction o
 prop('C20', level='proof',
      claim='Unbounded proof on the real VM::executeSingle that ADD_CONST is defined for all operands (CBMC signed-overflow/conversion obligations on the real expression), yields max(x+c,0) whenever that fits the word and some natural number otherwise, and that every opcode keeps all data words in [0, INT_MAX] (ghost word index).',
      note='Trusted: container model T1-T3, CBMC; CONST operands >= 0 is part of the assumed static typing; literal conversion in the compiler (strToInt) is decided by the gen.cpp groups when present.',
-     explanation=STEP_NOTE + 'C20: NAT_G (data[g_g] >= 0 for the unconstrained ghost index g_g) is an ensures clause of all 12 step contracts; ADD_CONST has the functional clause and CBMC\'s own overflow obligations on the real 64-bit computation.',
-     not_decided='compile-time literal range checks are covered only by the compiler-side groups', trusted=VM_TRUST)
+     explanation='Compiler side: strToInt / strToIntSilent of gen.cpp and strToInt of macro.cpp (priorities, insertion indices) under a strtol model (T5): range error exactly for values >= 2^31-1, exact conversion otherwise, the silently converted constant of the x - c sugar always negatable (found and fixed: -INT_MIN). VM side: ' + STEP_NOTE + 'C20: NAT_G (data[g_g] >= 0 for the unconstrained ghost index g_g) is an ensures clause of all 12 step contracts; ADD_CONST has the functional clause and CBMC\'s own overflow obligations on the real 64-bit computation.',
+     not_decided='that strToIntSilent is only reached for literals strToInt has judged (ordering inside dispatchValue)', trusted=VM_TRUST + ['T5: strtol is modelled by its C11 specification on digit strings (ghost value of the string under test)'])
 
 prop('C03', level='proof',
      claim='VM side (complete): type-soundness theorem of the real step function - for every program with a static typing and every state satisfying the dynamic invariant, each step keeps all accesses to data/code/stack inside their arrays (CBMC pointer/bounds obligations + the container model\'s index assertions) and re-establishes the invariant. Compiler side: per-mechanism contracts on gen.cpp where built.',
      note='Trusted: container model, CBMC. Not machine-checked: that a typing exists for every accepted source (whole-traversal invariant of the code generator); the induction over steps.',
-     explanation=STEP_NOTE + 'C03 = WF(ip) & Inv => memory safety & Inv\' for every opcode; VM::execute is verified against the general step contract (callee replaced).',
+     explanation='Compiler side (per mechanism): fetchTemporary/fetchVariableRegister (registers of the frame, frame only grows), dispatchArgs (argnum grows with the frame, duplicate name is an error), popSymbols (table entry = entry/own stack map/arity/frame size), dispatchValue (PREPARE/ARG/EXEC taken from the table entry; arity rule), getMarkPos/dispatchMark/dispatchGoto (labels in range), backpatch (offset = label position - own position; unset label reported), gen_layout. VM side: ' + STEP_NOTE + 'C03 = WF(ip) & Inv => memory safety & Inv\' for every opcode; VM::execute is verified against the general step contract (callee replaced).',
      not_decided='existence of the static typing for every accepted source', trusted=VM_TRUST)
 
 prop('C01', level='proof',
      claim='Half (a) of C01: the 12 step contracts ARE the reference small-step semantics of the bytecode (zeroed frames, copy/constant, x+c, truncated x-c, jumps, call-by-value with fresh zeroed locals, result copied to the caller\'s target, HALT stops) and are proved on the real VM::executeSingle without bound. Half (b) (lowering schemas of gen.cpp) per function where built; the simulation argument joining the halves is not machine-checked.',
      note='Trusted: container model, CBMC. Macros, sugar, includes and the step-budget clause are not decided.',
-     explanation=STEP_NOTE + 'C01(a): functional ensures clauses (new ip, written word, untouched words via the assigns clause, new activation record) per opcode.',
+     explanation='Half (b), per function with callees replaced: dispatchLoop (own counter, decrement + jump back), dispatchWhile (jump back to its own start label), dispatchGoto/dispatchMark (mark table), dispatchAssign, dispatchValue (copy = ADD 0, constant load, call sequence), backpatch, fetch*. Half (a): ' + STEP_NOTE + 'C01(a): functional ensures clauses (new ip, written word, untouched words via the assigns clause, new activation record) per opcode.',
      not_decided='lowering correctness as a whole (simulation), macros, includes', trusted=VM_TRUST)
 
 prop('C05', level='proof',
